@@ -54,6 +54,18 @@ PROPS = {
         assumptions=["EXEC.CMD replaced by a harmless stub (statement's envelope)",
                      "size-like operands above 5000 (300 for LIST.NEIGHBOR*) and heaps above 96 MiB are outside the envelope and counted, not judged"],
     ),
+    "C03": dict(
+        jobs=lambda tier: both(6),
+        eval_keys=["strings"],
+        note_keys=["exhaustive_space"],
+        rule="(a) ALL token sequences of length <= 5 (7 thorough) over {( ) 1 x INT[1,2] INT[ BOOL[q] FLOAT[]}; (b) hostile random strings "
+             "(token soup, unbalanced parens, raw UTF-8, dangerous vector-literal prefixes with multi-byte tails, 10^4-byte tokens, deep nesting, "
+             "Unicode whitespace); (c) random balanced token trees over all atom kinds rendered with random whitespace, EXEC compared "
+             "structurally with an independent classification/tree builder; other stacks must not change. distinct = token-shape class.",
+        floors={"trees compared": lambda a, t: a.counts.get("trees_compared", 0) >= 10000},
+        assumptions=["integers and floats inside literals are 'well formed' iff Rust's i32/f32 from_str accepts them (the only lexical definition there is)",
+                     "a vector literal with an empty payload may be dropped or yield an empty vector (documentation silent)"],
+    ),
     "C04": dict(
         jobs=lambda tier: both(4),
         post=c04_post,
@@ -93,5 +105,49 @@ PROPS = {
         rule="for every registered instruction, every vector of operand-stack depths in prod(0..=need) (exhaustive), x bystander "
              "variations incl. guard-failing operand values; distinct = (name, depth pattern, fired?).",
         floors={"all registered instructions": lambda a, t: set_n(a, "instructions") >= N_REGISTERED},
+    ),
+    "C16": dict(
+        jobs=lambda tier: [shards("release", 12), shards("debug", 4)],
+        eval_keys=["ops"],
+        exhaustive=True,
+        note_keys=["exhaustive_space"],
+        rule="ALL histories of length <= 3 (4 thorough) over 79 operation instances of the whole public PushStack API (positions 0..5) from "
+             "the empty and from a 3-element stack, plus random histories of length 300; element types i32 (unique values) and nested Items; "
+             "after every operation the return value, the full contents and the printed form are compared with a Vec model. "
+             "distinct = (type, op, position class in/=len/beyond, length).",
+        floors={"histories": lambda a, t: a.counts.get("histories", 0) >= 100000},
+    ),
+    "C17": dict(
+        jobs=lambda tier: [shards("release", 8), shards("debug", 4)],
+        eval_keys=["ops", "io_steps"],
+        exhaustive=True,
+        note_keys=["exhaustive_space"],
+        rule="ALL histories of length <= 6 (8 thorough) over {push, push_force, pop, flush} for capacities 1..5 and both buffer kinds, plus "
+             "random histories of 3000+ operations on capacities up to 100; after every operation every read operation (get/copy/get_mut at "
+             "0..cap+1, oldest/newest, iteration, sizes, printing) is compared with a bounded-sequence model and the cursor invariant is read "
+             "through the verif hook; INPUT.*/OUTPUT.* instruction sequences against a FIFO model. distinct = (kind, capacity, cursor state, op).",
+        floors={"histories": lambda a, t: a.counts.get("histories", 0) >= 10000, "8 io instructions": lambda a, t: set_n(a, "instructions") >= 8},
+    ),
+    "C18": dict(
+        jobs=lambda tier: [shards("release", 12), shards("debug", 4)],
+        eval_keys=["api_ops", "instr_steps"],
+        exhaustive=True,
+        note_keys=["exhaustive_space"],
+        rule="ALL Graph API histories of length <= 3 (4 thorough) over add/remove node, add/remove edge, set state/weight, clone on 3 node "
+             "slots + a never-issued id (after two initial nodes), random histories of 200 ops on 12 slots with stale ids; after every op the "
+             "pub maps, all getters, filter, sizes, every snapshot and diff are compared with a set model; GRAPH.* instruction histories with "
+             "valid/stale/bogus ids and history depths, judged by the reference model. distinct = (op, id class, graph size class).",
+        floors={"19 graph instructions": lambda a, t: set_n(a, "instructions") >= 19, "histories": lambda a, t: a.counts.get("histories", 0) >= 5000},
+    ),
+    "C20": dict(
+        jobs=lambda tier: [shards("release", 16)],
+        eval_keys=["neighbourhoods", "decompositions", "instr_steps"],
+        exhaustive=True,
+        note_keys=["grid_size"],
+        rule="EVERY (ntotal 1..130, ndim 1..4, index, radius in 11 values incl. 0 and values between lattice distances) (thorough: ntotal to "
+             "1100 with all perfect powers, ndim to 6) against an integer brute-force oracle (points within 1e-5 of the radius are don't-cares); "
+             "symmetry over all pairs, monotonicity, centre, order; decompose_index bijection on every hypercube up to 20000 cells; "
+             "LIST.NEIGHBOR* with clamped / hostile operands. distinct = (ntotal, ndim, radius, perfect-power?).",
+        floors={"4 instructions": lambda a, t: set_n(a, "instructions") >= 4},
     ),
 }
